@@ -502,7 +502,8 @@ class ConcurrentVector {
    **/
   iterator insert(const_iterator pos, const T& value) {
     auto it = insertPartial(pos);
-    new (&*it) T(value);
+    // insertPartial leaves a live (default-constructed or moved-from) element at the insertion point.
+    *it = value;
     return it;
   }
 
@@ -514,7 +515,8 @@ class ConcurrentVector {
    **/
   iterator insert(const_iterator pos, T&& value) {
     auto it = insertPartial(pos);
-    new (&*it) T(std::move(value));
+    // insertPartial leaves a live (default-constructed or moved-from) element at the insertion point.
+    *it = std::move(value);
     return it;
   }
 
